@@ -108,6 +108,45 @@ def mutate_text(rng, text):
     return "".join(toks)
 
 
+def amplified(rng, tier):
+    """inputs in which one construct is repeated or nested far beyond what any real input does: the recursion depth and
+    the running time of a recursive-descent parser are decided by such inputs, and byte-level mutation never builds them"""
+    sizes = [40, 150, 3000] if tier == "quick" else [33, 40, 100, 150, 700, 3000, 20000, 200000]
+    jobs = []
+    for n in sizes:
+        for nm, text in (
+                ("parens", "ASSERT(" + "(" * n + "1" + ")" * n + ', "x")'),
+                ("unary", "ASSERT(" + "~" * n + '1 | 1, "x")'),
+                ("unary-parens", "ASSERT(" + "(-" * n + "1" + ")" * n + ', "x")'),
+                ("chain", "ASSERT(" + "1+" * n + '1, "x")'),
+                ("chain-mixed", "ASSERT(" + "1*2+3|4&5^" * (n // 5) + '1, "x")'),
+                ("function", "ASSERT(" + "ALIGN(" * n + "1" + ")" * n + ', "x")'),
+                ("sections-address", "SECTIONS { .text " + "(" * n + "0x400000" + ")" * n + " : { *(.text) } }"),
+                ("memory", "MEMORY { ram : ORIGIN = " + "(" * n + "1" + ")" * n + ", LENGTH = 1M }"),
+                ("comment", "/*" * n + "*/" * n + " ENTRY(_start)"),
+                ("keep", "SECTIONS { .text : { " + "KEEP(" * n + "*(.text)" + ")" * n + " } }"),
+                ("braces", "SECTIONS { " + ".a : { " * n + "}" * n + " }")):
+            jobs.append(("script", "s.ld", text.encode(), None))
+        jobs.append(("input-script", "g.ld", ("GROUP(" + "AS_NEEDED(" * n + "b.o" + ")" * n + ")").encode(), None))
+        jobs.append(("input-script", "g.ld", ("INPUT(" + "GROUP(" * n + "b.o" + ")" * n + ")").encode(), None))
+        for nm, text in (
+                ("extern-nest", "{ global: " + 'extern "C" { ' * n + "foo; " + "}; " * n + "};"),
+                ("extern-nest-cxx", "V1 { global: " + 'extern "C++" { ' * n + "foo; " + "}; " * n + "local: *; };"),
+                ("extern-big", '{ global: extern "C++" { ' + " ".join(f"ns::f{i}*;" for i in range(n)) + " }; local: *; };"),
+                ("extern-unclosed", '{ global: extern "C" { ' + " ".join(f"f{i};" for i in range(n))),
+                ("many-versions", "V0 { global: foo; };\n" + "".join(f"V{i + 1} {{ global: f{i}; }} V{i};\n" for i in range(min(n, 20000)))),
+                ("brace-nest", "{" * n + " foo; " + "};" * n)):
+            jobs.append(("version-script", "v.map", text.encode(), None))
+        jobs.append(("export-list", "e.list", ("{ " + 'extern "C" { ' * n + "foo; " + "}; " * n + "};").encode(), None))
+        jobs.append(("export-list", "e.list", ("{ " + " ".join(f"f{i};" for i in range(n)) + " };").encode(), None))
+        jobs.append(("response-file", "args.rsp", (" ".join(["--as-needed"] * n)).encode(), None))
+        jobs.append(("response-file", "args.rsp", ("'" + "x" * n + "' " + '"' + "\\\\" * n + '"').encode(), None))
+    jobs.append(("response-file", "args.rsp", b"@args.rsp", None))                       # includes itself
+    jobs.append(("response-file", "args.rsp", b"b.o @args.rsp @args.rsp", None))
+    jobs.append(("response-file", "args.rsp", b"@./args.rsp\n", None))
+    return jobs
+
+
 def run(chk, replay=None):
     coq = coq_build(["C22"], ["C22/Props.v"])
     chk.add_coq(coq)
@@ -214,6 +253,9 @@ def run(chk, replay=None):
                     if rng.random() < 0.6:
                         argv.append(rng.choice(VALUES))
             jobs.append(("arguments", None, None, argv))
+        amp = amplified(rng, chk.tier)
+        stats["amplified"] = len(amp)
+        jobs += amp
         if replay and "job" in json.load(open(replay))["replay"]:
             j = json.load(open(replay))["replay"]["job"]
             jobs = [(j["kind"], j["file"], bytes.fromhex(j["data_hex"]) if j.get("data_hex") is not None else None, j.get("argv"))]
@@ -223,12 +265,13 @@ def run(chk, replay=None):
             w = f"{d}/w{i}"
             os.makedirs(w)
             for f in ("a.o", "b.o", "libb.a", "libt.a", "libb.so", "s.ld", "v.map", "e.list"):
+                if f == fname:
+                    continue
                 os.symlink(f"{d}/{f}", f"{w}/{f}")
             if fname:
-                os.remove(f"{w}/{fname}") if os.path.lexists(f"{w}/{fname}") else None
                 open(f"{w}/{fname}", "wb").write(data)
             base = {"object": ["a.o", "b.o"], "object2": ["a.o", "b.o"], "archive": ["a.o", "libb.a"], "thin": ["a.o", "libt.a"], "shared": ["a.o", "libb.so"],
-                    "script": ["a.o", "b.o", "-T", "s.ld"], "version-script": ["a.o", "b.o", "-shared", "--version-script=v.map"], "export-list": ["a.o", "b.o", "-pie", "--dynamic-list=e.list"],
+                    "script": ["a.o", "b.o", "-T", "s.ld"], "input-script": ["a.o", "g.ld"], "version-script": ["a.o", "b.o", "-shared", "--version-script=v.map"], "export-list": ["a.o", "b.o", "-pie", "--dynamic-list=e.list"],
                     "response-file": ["a.o", "b.o", "@args.rsp"],
                     "arguments": ((argv or []) + ["a.o", "b.o"]) if (len(argv or []) % 2) else (["a.o"] + (argv or []) + ["b.o"])}[kind]
             try:
@@ -244,6 +287,9 @@ def run(chk, replay=None):
             stats["runs"] += 1
             stats["by_input"][kind] = stats["by_input"].get(kind, 0) + 1
             rep = {"job": {"kind": kind, "file": fname, "data_hex": data.hex() if data is not None and len(data) < 20000 else None, "argv": argv}}
+            if data is not None and len(data) >= 20000:
+                rep["job"]["data_head"] = data[:200].decode("latin-1")
+                rep["job"]["data_len"] = len(data)
             crash = None
             if rc == "timeout":
                 crash = "does not terminate within 20 s"
@@ -253,6 +299,8 @@ def run(chk, replay=None):
             elif "panicked at" in out or "RUST_BACKTRACE" in out:
                 m = re.search(r"panicked at ([^\n]*)", out)
                 crash = "panics: " + (m.group(1)[:160] if m else out.strip()[-160:])
+            elif "has overflowed its stack" in out or "stack overflow" in out:
+                crash = f"overflows its stack: {out.strip()[-120:]}"
             elif isinstance(rc, int) and (rc < 0 or rc in (134, 139, 101)):
                 crash = f"is killed by a signal or aborts (status {rc}): {out.strip()[-160:]}"
             elif rc not in (0, 1, 255):
@@ -274,7 +322,8 @@ def run(chk, replay=None):
         "evaluations": stats["runs"] + stats["tokenizer_cases"] + stats["archive_mutations"] + stats["archive_prefixes"], "distinct_nontrivial": stats["outcomes"]["diagnostic"],
         "rule": "tokenizer: 10 fixed + N generated strings (35% random over a 15-symbol alphabet, 65% structured arguments); archive iterator: every 7th (thorough: every) prefix of a real archive + "
                 "header-targeted mutations; binary: per input kind (two objects, archive, thin archive, shared object, linker script, version script, export list, response file) N mutations, plus 2N "
-                "random argument lists from a dictionary of options and hostile values; 20 s limit",
+                "random argument lists from a dictionary of options and hostile values; plus amplified inputs (one construct nested or repeated 40..200000 times in scripts, version scripts, "
+                "export lists and response files, self-including response files); 20 s limit",
         "stats": stats,
     })
     return chk.finish(TRUSTED)
